@@ -65,6 +65,9 @@ pub mod q {
     intro_harness!(i_box, Box<(u8, u8)>, 8, 0);
     intro_harness!(i_range, std::ops::Range<u8>, 8, 0);
     intro_harness!(i_res, Result<(u8, u8), u8>, 8, 0);
+    intro_harness!(i_res_err, Result<u8, (u8, u16, u8)>, 8, 0);
+    intro_harness!(i_opt_arr, Option<[u8; 3]>, 8, 0);
+    intro_harness!(i_box_struct, Box<SqRust>, 8, 0);
     intro_harness!(i_struct3, SqRust, 8, 0);
     intro_harness!(i_struct_unit, SqUnit, 8, 0);
     intro_harness!(i_struct_tuple, SqTuple, 8, 0);
